@@ -1332,8 +1332,11 @@ pub fn check_replsim(property: &str, tier: &str) -> i32 {
     let mut unconfirmed = 0;
     for c in candidates {
         let class = c["class"].as_str().unwrap_or("").to_string();
-        let k = per_class.entry(class.clone()).or_default();
-        if *k >= 4 {
+        // candidates from the sessions that pin a known finding (kf_*) have a quota of their own:
+        // they must not use up the slots of a different violation of the same class
+        let kf = c["scenario"]["name"].as_str().is_some_and(|n| n.starts_with("kf_"));
+        let k = per_class.entry(if kf { format!("kf:{class}") } else { class.clone() }).or_default();
+        if *k >= if kf { 2 } else { 4 } {
             continue;
         }
         *k += 1;
